@@ -197,6 +197,9 @@ func replay(t *testing.T, rf *proto.ReplayFile, journal func(step, who int, site
 		if err := json.Unmarshal(rf.Config, &cfg); err != nil {
 			t.Fatal(err)
 		}
+		if rf.Explore {
+			return powsim.Run(t, &cfg, nil, false, journal) // under the configuration's own seeded strategy
+		}
 		return powsim.Run(t, &cfg, rf.Choices, true, journal)
 	}
 	if rf.Engine == "slipsim" {
